@@ -447,6 +447,13 @@ def r6(chk):
                 tx._assign(s.targets[0], tx.expr(s.value))
             except symx.Unsupported:
                 pass
+        elif isinstance(s, ast.If) and not any(isinstance(n, (ast.Return, ast.Raise, ast.For, ast.While)) for n in ast.walk(s)):
+            # the same values chosen by an if/else statement instead of conditional expressions
+            saved = dict(tx.env)
+            try:
+                tx.block([s])
+            except symx.Unsupported:
+                tx.env = saved
     # roles: X = first argument of test.sample_size; BIG = factor of its initialisation; SMALL = first value stored into it
     tc = [c for c in ast.walk(fn) if isinstance(c, ast.Call) and norm(c.func).endswith(".sample_size") and c.args and isinstance(c.args[0], ast.Name)]
     XN = tc[0].args[0].id if tc else "x"
